@@ -49,6 +49,9 @@ func runC05(c *Ctx) {
 	c05DriverPath(c)
 	c05IterPool(c)
 	c05FreshContext(c)
+	// a reader pins ONE *DB per generation: a reload that hands out a second *DB object over the backend that is still
+	// served (seed c05r4i) splits the reference count, and the next switch closes the backend under in-flight queries
+	c06RejectClosesAs(c, "C05.one-db-per-backend")
 }
 
 // c05Order implements C05.order and C05.partial; reused by C12.purge.
